@@ -17,7 +17,7 @@ import pickle
 import numpy as np
 
 from .. import recorded
-from ..harness import InjectedFault, Probe, rm_tmp, tmpfile
+from ..harness import InjectedFault, InjectedInterrupt, Probe, rm_tmp, tmpfile
 from ..targets import Coord, Target
 
 ID = "C12"
@@ -116,12 +116,12 @@ def mk_cfg(g, case, n):
     return cfg
 
 
-def one_run(cfg, path, mode, fault=None, observer=None):
+def one_run(cfg, path, mode, fault=None, observer=None, fault_exc=InjectedFault):
     """mode: 'path' (checkpoint_path=) or 'auto' (auto_checkpoint context)."""
     from .. import smcrun
 
     t = Target.from_desc(cfg["target"])
-    probe = Probe(t, fault_like_at=(fault[1] if fault and fault[0] == "L" else None), fault_prior_at=(fault[1] if fault and fault[0] == "P" else None))
+    probe = Probe(t, fault_like_at=(fault[1] if fault and fault[0] == "L" else None), fault_prior_at=(fault[1] if fault and fault[0] == "P" else None), fault_exc=fault_exc)
     if observer:
         probe.observers.append(observer)
     _, a, probe = recorded.build(cfg, probe=probe)
@@ -253,7 +253,10 @@ def faults_case(case, counters, viol, nontrivial):
                     res, probe, a = two_runs_one_context(big_cfg, cfg, path, (kind, idx))
                     n_before = res.n_before_second
                 else:
-                    res, probe, a = one_run(cfg, path, mode, fault=(kind, idx))
+                    # every third interruption is not an Exception subclass (Ctrl-C like)
+                    fexc = InjectedInterrupt if idx % 3 == 1 else InjectedFault
+                    counters["interrupt_type_faults"] += int(fexc is InjectedInterrupt)
+                    res, probe, a = one_run(cfg, path, mode, fault=(kind, idx), fault_exc=fexc)
                 if res.exc is None and cfg["sampler"] == "emcee_smc":
                     # this sampler takes no random source: the run is not a replay of the reference run and may make fewer calls
                     counters["fault_index_beyond_unseeded_run"] += 1
@@ -261,7 +264,7 @@ def faults_case(case, counters, viol, nontrivial):
                 if res.exc is None:
                     viol.append({"mech": "C12/fault-not-reached", "detail": f"{where}: {kind} call {idx} of {total}"})
                     continue
-                if not isinstance(res.exc, InjectedFault):
+                if not isinstance(res.exc, (InjectedFault, InjectedInterrupt)):
                     raise res.exc
                 mine = [d for d in DUMPS[n_before:] if d[0] == os.path.realpath(path)]  # payloads of the interrupted run
                 earlier = [d for d in DUMPS[:n_before] if d[0] == os.path.realpath(path)]  # left by the earlier, bigger run
